@@ -356,6 +356,9 @@ func TestVerifFsm(t *testing.T) {
 	defer outf.Close()
 	out := bufio.NewWriterSize(outf, 1<<20)
 	defer out.Flush()
+	if os.Getenv("VERIF_JSON") == "1" {
+		*useProtobuf = false // -pre1.0_protobuf=false: JSON-encoded raft log, irclog and snapshots
+	}
 	log.SetOutput(io.Discard)
 	h := &fsmHarness{t: t, dir: filepath.Join(os.Getenv("VERIF_TMP"), "fsm")}
 	sc := bufio.NewScanner(in)
